@@ -37,3 +37,13 @@ CHECKS["C16"] = {
   "text": "Equal is compared with an independent structural reference (identified structs by name, everything else by structure) on every ordered pair of every generated case, and checked for reflexivity (same object and a disjoint copy), symmetry, transitivity on all triples and termination (a stack overflow kills the shard; the driver re-runs it with case tracing and reports the crashing case); Equal(t, parse(print(t))) is checked by embedding t at a position legal for its kind.",
   "note": "Trusts am.Equal (h/am/types.go) as the statement of LLVM type identity and the am→llir type instantiation (h/emit/types.go). Universes follow LLVM's data model: unique names, only struct types are named.",
 }
+CHECKS["C01"] = {
+  "technique": "property-based testing / differential testing: rapid-generated typed modules (own generator + own text emitter), llvm-stress programs and opt-transformed variants, repository testdata; oracle = LLVM 14's own reading (llvm-as | llvm-dis, normalised) of input versus llir's parse→print output",
+  "text": "Generated-input search over valid LLVM 14 modules: the harness' typed module generator (validity by construction, 100% accepted by llvm-as in measurement), llvm-stress programs and opt variants, and the repository's testdata. For every input LLVM accepts: parsing and printing must not panic, the parser must accept what the own generator emits, LLVM must accept the output and read the same canonical module from it. Failures are shrunk by rapid (own generator) or by line-based delta debugging (external inputs).",
+  "note": "Trusts llvm-as-14/llvm-dis-14 as the reading of 'meaning' and the normaliser (metadata numbering, named-metadata/type/comdat order, attachment order). s0x literals are outside the domain (LLVM's reading differs from the documented one, see C09). Open findings: NaN payloads (input rewritten, counted), two grammar gaps of github.com/llir/ll (generator exclusions, counted).",
+}
+CHECKS["C02"] = {
+  "technique": "property-based testing: round-trip fixpoint (parse→print→parse→print byte equality) plus reflection-based bisimulation of the two parsed modules, over rapid-generated modules, llvm-stress/opt programs and repository testdata",
+  "text": "For every accepted input x: y=print(parse(x)) is accepted by the parser, print(parse(y)) equals y byte for byte, and parse(x) and parse(y) are structurally identical under a bisimulation that pairs identity-bearing objects one-to-one. The domain gate (llvm-as accepts x) is evaluated lazily, only when a failure is seen.",
+  "note": "Trusts the reflection walker (h/walk/bisim.go): exported fields only, lazily cached `Typ` fields that are nil on one side are ignored, value-like objects (constants, literal types) are compared structurally.",
+}
